@@ -204,16 +204,18 @@ var _ = oracle.ParseLogfmt
 // those that fail alone are culprits, named by their value class. The record is then
 // logged again without the culprits; whatever still fails is the residual, reported
 // under its own clause. If nothing fails alone the original violations are the residual.
-func explain(cs recCase, run func(recCase) ([]byte, []tv)) (culprits []string, residual []tv) {
+type culprit struct{ class, detail string }
+
+func explain(cs recCase, run func(recCase) ([]byte, []tv)) (culprits []culprit, residual []tv) {
 	seen := map[string]bool{}
 	var keep []gen.KV
 	for _, kv := range cs.kvs {
 		alone := recCase{msg: "m", lvl: slog.InfoLevel, caller: cs.caller, kvs: []gen.KV{kv}}
-		if _, v := run(alone); len(v) > 0 {
+		if p, v := run(alone); len(v) > 0 {
 			cl := culpritClass(kv.Val)
 			if !seen[cl] {
 				seen[cl] = true
-				culprits = append(culprits, cl)
+				culprits = append(culprits, culprit{cl, fmt.Sprintf("%s/%s: %s\nrecord with only this attribute: %s", v[0].clause, v[0].feature, v[0].detail, q(clip(string(p), 600)))})
 			}
 			continue
 		}
